@@ -281,6 +281,11 @@ func runC06(c *fw.Ctx) {
 			total = new(big.Int).Exp(big.NewInt(10), big.NewInt(int64(r.Range(20, 40))), nil)
 			total.Add(total, big.NewInt(int64(r.Intn(1000))))
 		}
+		if r.Chance(1, 4) {
+			// totals just below a power of two
+			total = new(big.Int).Lsh(big.NewInt(1), uint([]int{16, 31, 32, 33, 63, 64}[r.Intn(6)]))
+			total.Sub(total, big.NewInt(int64(1+r.Intn(64))))
+		}
 		vals["n"] = "USD " + total.String()
 		// a second statement using the same portions (and portion variables) again
 		twice := sumOK && r.Chance(1, 2)
@@ -371,7 +376,10 @@ func randomPortions(r *rng.R, k int) (heads []gen.Allot, ps []*big.Rat, vars []*
 	vals = map[string]string{}
 	// pick a denominator family
 	var den int64
-	switch r.Intn(6) {
+	switch r.Intn(8) {
+	case 6, 7:
+		// terms just below a power of two (16, 31, 32, 62 bits)
+		den = int64(1)<<uint([]int{16, 31, 32, 62}[r.Intn(4)]) - 1 - int64(r.Intn(64))
 	case 4:
 		den = int64(pow(10, r.Range(8, 16))) // percentages with 6–14 decimals
 	case 5:
@@ -388,7 +396,7 @@ func randomPortions(r *rng.R, k int) (heads []gen.Allot, ps []*big.Rat, vars []*
 	parts := make([]int64, k)
 	left := den
 	for i := 0; i < k-1; i++ {
-		parts[i] = int64(r.Intn(int(left) + 1))
+		parts[i] = int64(r.U64() % uint64(left+1))
 		left -= parts[i]
 	}
 	parts[k-1] = left
